@@ -14,7 +14,9 @@ LOCAL_SETTINGS = ["next_line_help", "arg_required_else_help", "allow_missing_pos
                   "allow_external_subcommands", "args_conflicts_with_subcommands",
                   "subcommand_precedence_over_arg", "subcommand_negates_reqs", "no_binary_name", "multicall",
                   # the command-level (doc-hidden) forms of three argument settings: applied to the arguments at build time
-                  "allow_hyphen_values", "allow_negative_numbers", "trailing_var_arg"]
+                  "allow_hyphen_values", "allow_negative_numbers", "trailing_var_arg",
+                  # help layout only (no effect on parse results): subcommands listed inline in the parent's help
+                  "flatten_help"]
 SETTINGS = GLOBAL_SETTINGS + LOCAL_SETTINGS
 
 
@@ -837,6 +839,11 @@ def f_hist():
         [["--bad"], ["-f", "leaf", "--bad"], ["--help"], ["-o"], ["leaf", "x", "y"]])
     add("external", cmd("prog", [arg("f", "f", action="SetTrue")], subs=[cmd("known")], allow_external_subcommands=True),
         [["ext", "a", "b"], ["known"], ["-f", "ext"], ["--nope"]])
+    # help rendered for a partially visited tree: names of visited and unvisited subcommands must be computed alike
+    add("flatten-help", cmd("prog", [arg("input", required=True), arg("f", "f", action="SetTrue")],
+                            subs=[cmd("one", [arg("x", "x", action="SetTrue")]), cmd("two", [arg("y", "y", "yy")])],
+                            flatten_help=True, subcommand_negates_reqs=True),
+        [["one"], ["one", "-x"], ["--help"], ["-h"], ["two", "--help"], ["in"], ["two", "--yy"], ["nope", "--zz"]])
     # every built-in value parser, also on a global argument (globals are cloned into each subcommand at build time)
     add("typed", cmd("prog", [arg("cfg", "c", "cfg", glob=True, vp=vp_kind("path")), arg("os", "o", "os", vp=vp_kind("os")),
                               arg("n", "n", "num", vp=vp_int(0, 9)), arg("color", long="color", vp=vp_possible("always", "never")),
@@ -947,7 +954,9 @@ def f_man():
     def m(label, args=(), subs=(), about="", after_help="", author="", version="", no_help_flag=False):
         return {"fam": "man", "label": label, "alphabet": [], "env": {},
                 "md": {"name": b("prog"), "about": b(about), "after_help": b(after_help), "author": b(author), "version": b(version),
-                       "no_help_flag": no_help_flag, "args": list(args), "subs": list(subs)}}
+                       "no_help_flag": no_help_flag, "args": list(args), "subs": list(subs),
+                       # the Man builder's own overrides of the .TH arguments ([] = not overridden)
+                       "ov_title": [], "ov_section": [], "ov_date": [], "ov_source": [], "ov_manual": []}}
     D = [
         m("bare", about="about text"),
         m("flags+opts", [a("zqverbose", "v", "zqverbose", help="help v"), a("zqout", "o", "zqout", takes_value=True, help="help o", env="ZQ_ENV"),
